@@ -68,20 +68,21 @@ Section Proto.
 Variable ip6 : str -> option str.
 Variable handler : str -> hres.
 Variable has_mw has_upload : bool.
+Variable up_call_fails : option str.
 Variable peer_ip : str.
 Variable peer_fp : option str.
 
 Notation route := (route handler).
 Notation handle_gemini := (handle_gemini ip6 handler has_mw peer_ip peer_fp).
-Notation start_upload := (start_upload has_upload).
-Notation process_titan_upload := (process_titan_upload has_mw has_upload peer_ip peer_fp).
-Notation handle_titan_url := (handle_titan_url ip6 has_mw has_upload peer_ip peer_fp).
-Notation data_received := (data_received ip6 handler has_mw has_upload peer_ip peer_fp).
-Notation feed := (feed ip6 handler has_mw has_upload peer_ip peer_fp).
-Notation task_done := (task_done handler has_upload).
-Notation step := (step ip6 handler has_mw has_upload peer_ip peer_fp).
-Notation run := (run ip6 handler has_mw has_upload peer_ip peer_fp).
-Notation final := (final ip6 handler has_mw has_upload peer_ip peer_fp).
+Notation start_upload := (start_upload has_upload up_call_fails).
+Notation process_titan_upload := (process_titan_upload has_mw has_upload up_call_fails peer_ip peer_fp).
+Notation handle_titan_url := (handle_titan_url ip6 has_mw has_upload up_call_fails peer_ip peer_fp).
+Notation data_received := (data_received ip6 handler has_mw has_upload up_call_fails peer_ip peer_fp).
+Notation feed := (feed ip6 handler has_mw has_upload up_call_fails peer_ip peer_fp).
+Notation task_done := (task_done handler has_upload up_call_fails).
+Notation step := (step ip6 handler has_mw has_upload up_call_fails peer_ip peer_fp).
+Notation run := (run ip6 handler has_mw has_upload up_call_fails peer_ip peer_fp).
+Notation final := (final ip6 handler has_mw has_upload up_call_fails peer_ip peer_fp).
 
 (* responses that do not come from a completed task *)
 Definition Src0 (r : resp) : Prop := rs_body r = BNone \/ exists line, handler line = HValue r.
@@ -117,7 +118,10 @@ Qed.
 Lemma W_start_upload s : W Src0 s (fst (start_upload s)) (snd (start_upload s)).
 Proof.
   unfold ServerProto.start_upload. destruct (titan s); [|apply W_refl].
-  destruct has_upload; [|apply W_refl]. rewrite spawn_let; cbn [fst snd]. apply W_spawn. reflexivity.
+  destruct has_upload; [|apply W_refl]. destruct up_call_fails as [msg|].
+  - rewrite upload_failed_eq. pose proof (W_send Src0 s (err_resp 40 (lit "Upload error: " ++ msg))) as H.
+    destruct (send_response s _). cbn [fst snd] in *. apply W_cons; [reflexivity|]. apply H. auto.
+  - rewrite spawn_let; cbn [fst snd]. apply W_spawn. reflexivity.
 Qed.
 
 Lemma W_ptu s : W Src0 s (fst (process_titan_upload s)) (snd (process_titan_upload s)).
